@@ -16,20 +16,10 @@ Theorem logql_log_sound_complete_refuted : ~ log_sound_complete_stmt.
 Proof. exact logql_log_sound_complete_refuted_proof. Qed.
 Print Assumptions logql_log_sound_complete_refuted.
 
-(* Second, independent counterexample: nine matchers. bitShiftLeft(<UInt8 condition>, 8) is 0, so the
-   HAVING bitmask can never equal 2^9 - 1 and the query returns nothing although every guard about absent
-   labels holds. *)
-Theorem logql_log_width_refuted :
-  exists re_match parse_float (tie : forall A : Type, list A -> list A) q c d,
-    (forall A (l : list A), Permutation (tie A l) l) /\ in_fragment q = true /\ oracle_ok re_match parse_float q
-    /\ ctx_ok c = true /\ db_ok c d /\ absent_guard re_match q d
-    /\ ~ log_correct re_match parse_float tie q c d.
-Proof. exact logql_log_width_refuted_proof. Qed.
-Print Assumptions logql_log_width_refuted.
-
 (* The strongest true statement: for every regex / float oracle, every tie-breaking of ClickHouse, every
    query of the fragment, every context and every database that the writer's invariants (db_ok) allow,
-   if no matcher that accepts "" meets a series lacking its label, and there are at most 8 matchers, then
+   if no matcher that accepts "" meets a series lacking its label, and there are at most 63 matchers (the
+   bitmask is a UInt64 since fix 052673d and Go builds its constant from an int), then
    the planners produce a SELECT, it evaluates, and its rows are exactly the reference answer
    (a permutation of all matching lines without limit; a top-L set in the query direction with limit L),
    each line carrying its own stream's labels. Line filters and label filters are covered in full. *)
@@ -45,9 +35,9 @@ Print Assumptions logql_log_partial.
 (* ---- supporting theorems, meaningful on their own ---- *)
 
 (* groupBitOr(bitShiftLeft(c0,0) + ... + bitShiftLeft(c(n-1),n-1)) == 2^n - 1 over a group of rows
-   iff every condition holds on some row of the group; n <= 8 (UInt8 width of the shifted condition) *)
+   iff every condition holds on some row of the group; n <= 64 (UInt64 width of the shifted condition) *)
 Theorem bitmask_having : forall (n : nat) (rows : list (list bool)),
-  (n <= 8)%nat -> (forall bs, List.In bs rows -> List.length bs = n) ->
+  (n <= 64)%nat -> (forall bs, List.In bs rows -> List.length bs = n) ->
   (fold_left N.lor (map row_mask rows) 0%N = (2 ^ N.of_nat n - 1)%N
    <-> forall i, (i < n)%nat -> exists bs, List.In bs rows /\ nth i bs false = true).
 Proof. exact SqlEvalProofs.bitmask_having. Qed.
@@ -77,7 +67,7 @@ Print Assumptions limit_topk.
    which every matcher is witnessed by a label-index row inside the date / type bounds *)
 Theorem fp_sel_correct :
   forall re_match parse_float (tie : forall A : Type, list A -> list A) c d, ctx_ok c = true ->
-  forall ms, ms <> [] -> (List.length ms <= 8)%nat ->
+  forall ms, ms <> [] -> (List.length ms <= 64)%nat ->
     esel re_match parse_float tie (to_sqldb c d) (stream_select c ms) = Some (map fp_row (fp_sel_list re_match c d ms))
     /\ forall fp, (List.In fp (fp_sel_list re_match c d ms) <->
          forall m, List.In m ms -> exists g, List.In g (d_gin d) /\ g_fp g = fp /\ (from_day (c_from_ns c) <= g_day g)%Z
@@ -117,3 +107,11 @@ Theorem spec_oracle_decides : forall re_match parse_float q c d res,
   sem_b re_match parse_float q c d res = true <-> logql_sem re_match parse_float q c d res.
 Proof. exact sem_b_iff. Qed.
 Print Assumptions spec_oracle_decides.
+
+(* a selector with nine matchers selects its series (it returned nothing before fix 052673d) *)
+Theorem nine_matchers_select :
+  exists sel, log_select w9_query w_ctx = Some sel
+    /\ option_map (map row_out) (eval no_re no_float LogqlSemProofs.tie_id (to_sqldb w_ctx w9_db) sel)
+       = Some [Some {| o_fp := 7; o_labels := ts_labels w9_series; o_line := "hello"; o_ts := 1700000000000000005 |}].
+Proof. exact LogqlSemProofs.nine_matchers_select. Qed.
+Print Assumptions nine_matchers_select.
